@@ -912,6 +912,9 @@ def random_case(rng, hostile=False):
         r = rng.random()
         can_batch = (inforce or 'v2') != 'v1'
         style = inforce or rng.choice(['v1', 'v2', 'loose'])
+        if hostile and proto == 'auto' and rng.random() < 0.12:
+            # a peer that changes dialect after the protocol was detected (detection happens once)
+            style = rng.choice(['v1', 'v2', 'loose'])
         if r < 0.28 and len(keys) < 5:
             ok = rng.random() > 0.06
             ops.append(['S', int(ok)])
